@@ -40,6 +40,7 @@ NBVerdict(r) ==
 Acceptable(v) == v # "reject"
 TInit == /\ tid \in 1..Len(Recs) /\ l = 1
          /\ cid = 0 /\ pc = "trace" /\ blk = <<>> /\ extra = <<>> /\ added = <<>> /\ bm = 0 /\ bk = 0 /\ bi = 0 /\ pidx = 0 /\ hit = <<>> /\ pj = 0
+         /\ pl = 0 /\ meta = NoMeta /\ idefs = <<>> /\ iact = TRUE
          /\ ncid = 0 /\ npc = "trace" /\ ntbl = <<>> /\ nord = <<>> /\ nq = 0
 \* one step per record; the verdicts are evaluated in the invariant Mark (TLC caches sub-expressions there)
 TNext == /\ l = 1 /\ l' = 2 /\ tid' = tid
